@@ -14,6 +14,8 @@ def fold(e):
         return e.x["v"]
     if e.k == "cast":
         return fold(e.a[0])
+    if e.k == "call" and e.a and is_transparent(e.x["path"]) and e.x["path"].startswith("std::convert::num::<impl std::convert::From<"):
+        return fold(e.a[0])      # `u32::from(FLAG)`: lossless widening of a constant
     if e.k == "field" and e.x["name"] == "0" and e.a[0].k == "bin":
         return fold(e.a[0])
     if e.k == "field":
